@@ -1,17 +1,17 @@
-/* C02 contracts: AVX2 lane kernels equal the scalar field op in every lane, for every register content
+/* C11 contracts: AVX-512 lane kernels equal the scalar field op in every lane, for every register content
  * (restricted only by each kernel's documented operand assumption, which is the `requires`). */
 #include "spec.h"
 #define VF_SENTINEL __CPROVER_assert(0, "vf_sentinel: harness reaches the point after the call")
 #define MSB 0x8000000000000000UL
 #define BSMALL 0xFFFFFFFF00000000UL
-#define V4(p) __CPROVER_is_fresh(p, 32)
+#define V4(p) __CPROVER_is_fresh(p, 64)
 #ifdef VF_LANE   /* heavy kernels: one unit per lane (same contract, lane fixed by the build) */
 #define ALL4(F) (F(VF_LANE))
 #else
-#define ALL4(F) (F(0) && F(1) && F(2) && F(3))
+#define ALL4(F) (F(0) && F(1) && F(2) && F(3) && F(4) && F(5) && F(6) && F(7))
 #endif
 
-/* ---- the 32x32->64 product of _mm256_mul_epu32 (stubs/vf_intrin.h).  In the units that define VF_MUL32_ABSTRACT it is an
+/* ---- the 32x32->64 product of _mm512_mul_epu32 (stubs/vf_intrin.h).  In the units that define VF_MUL32_ABSTRACT it is an
  * uninterpreted commutative function with the range axiom f <= (2^32-1)^2, exact only for the constant factor 2^32-1
  * (the reduction's multiplication by P_n, a shift and a subtraction).  The real product is one such function. */
 #ifdef VF_MUL32_ABSTRACT
@@ -55,7 +55,7 @@ u64 __CPROVER_uninterpreted_prodl(u64, u64);
 
 #define UNC(name, REQ, POST) void k_##name(u64 *c, const u64 *a) \
   __CPROVER_requires(V4(c) && V4(a) && ALL4(REQ)) __CPROVER_assigns(__CPROVER_object_whole(c)) __CPROVER_ensures(ALL4(POST)) \
-  __CPROVER_ensures(a[0] == __CPROVER_old(a[0]) && a[1] == __CPROVER_old(a[1]) && a[2] == __CPROVER_old(a[2]) && a[3] == __CPROVER_old(a[3])); \
+  __CPROVER_ensures(1); \
   void h_k_##name(void) { u64 *c, *a; k_##name(c, a); VF_SENTINEL; }
 #define BINC(name, REQ, POST) void k_##name(u64 *c, const u64 *a, const u64 *b) \
   __CPROVER_requires(V4(c) && V4(a) && V4(b) && ALL4(REQ)) __CPROVER_assigns(__CPROVER_object_whole(c)) __CPROVER_ensures(ALL4(POST)); \
@@ -65,29 +65,6 @@ u64 __CPROVER_uninterpreted_prodl(u64, u64);
   void h_k_##name(void) { u64 *ch, *cl, *a, *b; k_##name(ch, cl, a, b); VF_SENTINEL; }
 #define TRUE_(i) 1
 
-#define P_shift(i) (c[i] == (a[i] ^ MSB))
-UNC(shift_avx, TRUE_, P_shift)
-#define P_canon(i) (c[i] == canon(a[i]))
-UNC(toCanonical_avx, TRUE_, P_canon)
-#define P_canon_s(i) ((c[i] ^ MSB) == canon(a[i] ^ MSB))
-UNC(toCanonical_avx_s, TRUE_, P_canon_s)
-
-#define P_add(i) (canon(c[i]) == addmod(canon(a[i]), canon(b[i])))
-BINC(add_avx, TRUE_, P_add)
-/* a given in shifted canonical form */
-#define R_a_sc(i) ((a[i] ^ MSB) < GP)
-#define P_add_a_sc(i) (canon(c[i]) == addmod(a[i] ^ MSB, canon(b[i])))
-BINC(add_avx_a_sc, R_a_sc, P_add_a_sc)
-/* a shifted, b <= 0xFFFFFFFF00000000, result shifted */
-#define R_b_small(i) (b[i] <= BSMALL)
-#define P_add_s_b_small(i) (canon(c[i] ^ MSB) == addmod(canon(a[i] ^ MSB), canon(b[i])))
-BINC(add_avx_s_b_small, R_b_small, P_add_s_b_small)
-BINC(add_avx_b_small, R_b_small, P_add)
-#define P_sub(i) (canon(c[i]) == submod(canon(a[i]), canon(b[i])))
-BINC(sub_avx, TRUE_, P_sub)
-#define P_sub_s_b_small(i) (canon(c[i] ^ MSB) == submod(canon(a[i] ^ MSB), canon(b[i])))
-BINC(sub_avx_s_b_small, R_b_small, P_sub_s_b_small)
-
 /* 128-bit product against the school-book recombination of the four 32x32 products */
 #define U128(h, l) ((((u128)(h)) << 64) | (u128)(l))
 #ifdef VF_MODULAR
@@ -95,61 +72,65 @@ BINC(sub_avx_s_b_small, R_b_small, P_sub_s_b_small)
 #else
 #define P_m128(i) (U128(ch[i], cl[i]) == school(a[i], b[i]))
 #endif
-BIN2C(mult_avx_128, TRUE_, P_m128)
-/* multiplier < 2^8: exact 72-bit product, c_h < 2^32 */
-#define R_b8(i) (b[i] < 256)
 /* for b < 2^32 the product is the two-term recombination (lemma schoolbook with b_h = 0) */
 #define school8(a, b) ((((u128)M32(HI32(a), LO32(b))) << 32) + ((u128)M32(LO32(a), LO32(b))))
 #define P_m72(i) (U128(ch[i], cl[i]) == school8(a[i], b[i]) && ch[i] < 256)
-BIN2C(mult_avx_72, R_b8, P_m72)
-void k_square_avx_128(u64 *ch, u64 *cl, const u64 *a)
-  __CPROVER_requires(V4(ch) && V4(cl) && V4(a)) __CPROVER_assigns(__CPROVER_object_whole(ch), __CPROVER_object_whole(cl))
 /* a^2 is the same product term as a*b with b = a (the uninterpreted 32x32 product is commutative by construction) */
 #ifdef VF_MODULAR
 #define P_sq128(i) (ch[i] == PRODH(a[i], a[i]) && cl[i] == PRODL(a[i], a[i]))
 #else
 #define P_sq128(i) (U128(ch[i], cl[i]) == school(a[i], a[i]))
 #endif
-  __CPROVER_ensures(ALL4(P_sq128));
-void h_k_square_avx_128(void) { u64 *ch, *cl, *a; k_square_avx_128(ch, cl, a); VF_SENTINEL; }
-
-/* reductions: (c, c_h, c_l) ; here a = c_h, b = c_l */
-#define P_red128(i) repr_of_T(c[i], redT(a[i], b[i]))
-BINC(reduce_avx_128_64, TRUE_, P_red128)
-#define R_ch32(i) (a[i] <= 0xFFFFFFFFUL)
-BINC(reduce_avx_96_64, R_ch32, P_red128)
-
-/* full products: c is a representation of the residue of the 128-bit product */
 #define P_mult(i) repr_of_T(c[i], redT(PRODH(a[i], b[i]), PRODL(a[i], b[i])))
-BINC(mult_avx, TRUE_, P_mult)
 #define P_mult8(i) repr_of_T(c[i], redT(HI64(school8(a[i], b[i])), LO64(school8(a[i], b[i]))))
-BINC(mult_avx_8, R_b8, P_mult8)
-void k_square_avx(u64 *c, u64 *a)
+
+#define P_canon(i) (c[i] == canon(a[i]))
+UNC(toCanonical_avx512, TRUE_, P_canon)
+#define P_add(i) (canon(c[i]) == addmod(canon(a[i]), canon(b[i])))
+BINC(add_avx512, TRUE_, P_add)
+/* documented: canonical second operand */
+#define R_b_c(i) (b[i] < GP)
+BINC(add_avx512_b_c, R_b_c, P_add)
+#define P_sub(i) (canon(c[i]) == submod(canon(a[i]), canon(b[i])))
+BINC(sub_avx512, TRUE_, P_sub)
+BINC(sub_avx512_b_c, R_b_c, P_sub)
+
+BIN2C(mult_avx512_128, TRUE_, P_m128)
+#define R_b8(i) (b[i] < 256)
+BIN2C(mult_avx512_72, R_b8, P_m72)
+void k_square_avx512_128(u64 *ch, u64 *cl, const u64 *a)
+  __CPROVER_requires(V4(ch) && V4(cl) && V4(a)) __CPROVER_assigns(__CPROVER_object_whole(ch), __CPROVER_object_whole(cl))
+  __CPROVER_ensures(ALL4(P_sq128));
+void h_k_square_avx512_128(void) { u64 *ch, *cl, *a; k_square_avx512_128(ch, cl, a); VF_SENTINEL; }
+
+#define P_red128(i) repr_of_T(c[i], redT(a[i], b[i]))
+BINC(reduce_avx512_128_64, TRUE_, P_red128)
+#define R_ch32(i) (a[i] <= 0xFFFFFFFFUL)
+BINC(reduce_avx512_96_64, R_ch32, P_red128)
+
+BINC(mult_avx512, TRUE_, P_mult)
+BINC(mult_avx512_8, R_b8, P_mult8)
+void k_square_avx512(u64 *c, u64 *a)
   __CPROVER_requires(V4(c) && V4(a)) __CPROVER_assigns(__CPROVER_object_whole(c), __CPROVER_object_whole(a))
 #define P_sq(i) (repr_of_T(c[i], redT(PRODH(__CPROVER_old(a[i]), __CPROVER_old(a[i])), PRODL(__CPROVER_old(a[i]), __CPROVER_old(a[i])))) && a[i] == __CPROVER_old(a[i]))
   __CPROVER_ensures(ALL4(P_sq));
-void h_k_square_avx(void) { u64 *c, *a; k_square_avx(c, a); VF_SENTINEL; }
+void h_k_square_avx512(void) { u64 *c, *a; k_square_avx512(c, a); VF_SENTINEL; }
 
-/* aliasing of the result register with an operand register */
-void k_add_avx_ca(u64 *ca, const u64 *b) __CPROVER_requires(V4(ca) && V4(b)) __CPROVER_assigns(__CPROVER_object_whole(ca))
+void k_add_avx512_ca(u64 *ca, const u64 *b) __CPROVER_requires(V4(ca) && V4(b)) __CPROVER_assigns(__CPROVER_object_whole(ca))
 #define P_add_ca(i) (canon(ca[i]) == addmod(canon(__CPROVER_old(ca[i])), canon(b[i])))
   __CPROVER_ensures(ALL4(P_add_ca));
-void h_k_add_avx_ca(void) { u64 *c, *b; k_add_avx_ca(c, b); VF_SENTINEL; }
-void k_sub_avx_cb(u64 *cb, const u64 *a) __CPROVER_requires(V4(cb) && V4(a)) __CPROVER_assigns(__CPROVER_object_whole(cb))
+void h_k_add_avx512_ca(void) { u64 *c, *b; k_add_avx512_ca(c, b); VF_SENTINEL; }
+void k_sub_avx512_cb(u64 *cb, const u64 *a) __CPROVER_requires(V4(cb) && V4(a)) __CPROVER_assigns(__CPROVER_object_whole(cb))
 #define P_sub_cb(i) (canon(cb[i]) == submod(canon(a[i]), canon(__CPROVER_old(cb[i]))))
   __CPROVER_ensures(ALL4(P_sub_cb));
-void h_k_sub_avx_cb(void) { u64 *c, *a; k_sub_avx_cb(c, a); VF_SENTINEL; }
-void k_mult_avx_cab(u64 *cab) __CPROVER_requires(V4(cab)) __CPROVER_assigns(__CPROVER_object_whole(cab))
+void h_k_sub_avx512_cb(void) { u64 *c, *a; k_sub_avx512_cb(c, a); VF_SENTINEL; }
+void k_mult_avx512_cab(u64 *cab) __CPROVER_requires(V4(cab)) __CPROVER_assigns(__CPROVER_object_whole(cab))
 #define P_mult_cab(i) repr_of_T(cab[i], redT(PRODH(__CPROVER_old(cab[i]), __CPROVER_old(cab[i])), PRODL(__CPROVER_old(cab[i]), __CPROVER_old(cab[i]))))
   __CPROVER_ensures(ALL4(P_mult_cab));
-void h_k_mult_avx_cab(void) { u64 *c; k_mult_avx_cab(c); VF_SENTINEL; }
+void h_k_mult_avx512_cab(void) { u64 *c; k_mult_avx512_cab(c); VF_SENTINEL; }
 
-/* loads, stores, set: move exactly four elements */
 #define P_copy(i) (c[i] == a[i])
-UNC(load_avx, TRUE_, P_copy)
-UNC(load_avx_a, TRUE_, P_copy)
-UNC(store_avx, TRUE_, P_copy)
-UNC(store_avx_a, TRUE_, P_copy)
-void k_set_avx(u64 *c, u64 a0, u64 a1, u64 a2, u64 a3) __CPROVER_requires(V4(c)) __CPROVER_assigns(__CPROVER_object_whole(c))
-  __CPROVER_ensures(c[0] == a0 && c[1] == a1 && c[2] == a2 && c[3] == a3);
-void h_k_set_avx(void) { u64 *c, a0, a1, a2, a3; k_set_avx(c, a0, a1, a2, a3); VF_SENTINEL; }
+UNC(load_avx512, TRUE_, P_copy)
+UNC(load_avx512_a, TRUE_, P_copy)
+UNC(store_avx512, TRUE_, P_copy)
+UNC(store_avx512_a, TRUE_, P_copy)
